@@ -26,6 +26,8 @@ type Job struct {
 	HashOut  string  `json:"hash_out"` // binary file of trace hashes
 	Race     bool    `json:"race"`
 	TreeHash string  `json:"tree_hash"`
+	Start    int     `json:"start"`      // first case index to consider (resuming after a recycled worker)
+	MaxRSSMB int     `json:"max_rss_mb"` // the worker stops and asks to be restarted above this resident size
 }
 
 // ReplayFile is the on-disk form of one violation.
@@ -260,6 +262,17 @@ func Minimise(t *testing.T, def *PropDef, tape []int, sig string, maxRuns int) (
 	return cur, best, runs
 }
 
+// rssMB returns the resident set size of the process in MiB (0 if unknown).
+func rssMB() int {
+	b, err := os.ReadFile("/proc/self/statm")
+	if err != nil {
+		return 0
+	}
+	var size, rss int
+	fmt.Sscan(string(b), &size, &rss)
+	return rss * os.Getpagesize() / (1 << 20)
+}
+
 // RunWorker executes a job; called from TestWorker.
 func RunWorker(t *testing.T, job *Job) *WorkerResult {
 	res := &WorkerResult{Property: job.Property, Worker: job.Worker, FaultFired: map[string]int{}, Probes: map[string]int{}, Extra: map[string]any{}}
@@ -310,8 +323,22 @@ func RunWorker(t *testing.T, job *Job) *WorkerResult {
 	case "explore":
 		ctx := &CaseCtx{Job: job, Emit: c.emit, Quick: job.Tier == "quick", Stop: func() bool { return time.Now().After(c.deadline) }}
 		lastFlush := time.Now()
-		for idx := job.Worker; idx < job.Cases; idx += job.Workers {
+		first := job.Worker
+		for first < job.Start {
+			first += job.Workers
+		}
+		maxRSS := job.MaxRSSMB
+		if maxRSS == 0 {
+			maxRSS = 3000
+		}
+		for idx := first; idx < job.Cases; idx += job.Workers {
 			if ctx.Stop() {
+				break
+			}
+			// runs whose tasks stay blocked for ever leave goroutines (and their
+			// interpreters) behind in dead bubbles: recycle the process
+			if res.Cases%25 == 24 && rssMB() > maxRSS {
+				res.Extra["resume_from"] = idx
 				break
 			}
 			c.caseIdx = idx
